@@ -82,3 +82,15 @@ def _c16_antialias_shrinks_hull():
 
 
 WITNESSES["c16_antialias_shrinks_hull"] = _c16_antialias_shrinks_hull
+
+
+def _c13_maxabs_signed_minimum():
+    import verde
+
+    got = verde.maxabs(np.array([-128, 5], dtype=np.int8))
+    if float(got) == 128.0:
+        return False, "maxabs([-128, 5] int8) is 128 now"
+    return True, "maxabs(int8 [-128, 5]) = %r, not 128" % (got,)
+
+
+WITNESSES["c13_maxabs_signed_minimum"] = _c13_maxabs_signed_minimum
